@@ -246,6 +246,8 @@ struct Property {
     // confirm_min of them failed again. Deterministic properties use 3/3. A property whose cases run on real threads (C19) has a
     // sound oracle but an outcome that depends on the OS schedule: there one further failure among many re-runs confirms.
     int confirm_runs = 3, confirm_min = 3;
+    long shrink_budget = 5000; // evaluations spent on shrinking a failure; afterwards every candidate counts as passing, so the
+                               // library stops at the smallest failure found so far (bounds the cost of expensive properties)
     bool no_shrink = false; // schedule-dependent outcomes cannot be shrunk meaningfully: keep the case that failed
 };
 
@@ -348,10 +350,15 @@ void run(Property<Case>& p) {
     Result last_res;
     c.current_prop = p.name;
     uint64_t known_skipped = 0;
+    long shrink_evals = 0;
+    if (const char* e = std::getenv("VERIF_SHRINK_BUDGET")) // (testing aid for the driver's time-budget path)
+        p.shrink_budget = std::atol(e);
     auto gen = p.gen();
     auto result = rc::detail::checkTestable(
         [&]() {
             Case cs = *gen;
+            if (have_fail && ++shrink_evals > p.shrink_budget)
+                return; // shrink budget used up: keep the smallest failing case found so far
             c.current = [&]() { return p.encode(cs); };
             Result r = detail::guarded(p, cs);
             c.current = nullptr;
@@ -363,6 +370,12 @@ void run(Property<Case>& p) {
                         k.second = r.why + "\n" + p.encode(cs);
                     ++known_skipped;
                     return;
+                }
+                if (!have_fail && !c.report.empty()) {
+                    // keep the first (unshrunk) failing case on disk at once: should shrinking outlast the worker's time budget,
+                    // the driver replays this file instead of calling the run inconclusive
+                    std::ofstream ff(c.report + ".firstfail");
+                    ff << "prop=" << p.name << "\n" << p.encode(cs) << "# sig=" << r.sig << "\n# (unshrunk: the worker ran out of its time budget while shrinking)\n";
                 }
                 have_fail = true;
                 last_fail = cs;
